@@ -9,6 +9,7 @@ pub fn run(kind: &str, i: &Input) -> String {
         "vm_op" => vm_op(i),
         "asm_bytes" => asm_bytes(i),
         "vm_prog" => vm_prog(i),
+        "lock_stress" => lock_stress(i),
         "vm_io" => vm_io(i),
         "vm_mapped" => vm_mapped(i),
         "check_graph" => check_graph(i),
@@ -536,4 +537,27 @@ fn vm_io(i: &Input) -> String {
     log.extend(st.1.log.lock().unwrap().clone());
     out += &format!("stack={}\nmemory={}\nrequests={}\n", fmt_words(&vm.stack), fmt_words(&vm.memory), log.join(";;"));
     out
+}
+
+/// contention stress of the real StdLock: T threads x N read-modify-write closures (with a yield between read and write)
+fn lock_stress(i: &Input) -> String {
+    let threads: usize = get(i, "threads").parse().unwrap_or(8);
+    let n: usize = get(i, "n").parse().unwrap_or(2000);
+    let lock = Arc::new(essential_lock::StdLock::new(0u64));
+    let mut hs = vec![];
+    let mut bad_return = false;
+    for _ in 0..threads {
+        let l = lock.clone();
+        hs.push(std::thread::spawn(move || {
+            let mut bad = false;
+            for _ in 0..n {
+                let r = l.apply(|v| { let x = *v; std::thread::yield_now(); *v = x + 1; x + 1 });
+                if r == 0 { bad = true; }
+            }
+            bad
+        }));
+    }
+    for h in hs { bad_return |= h.join().unwrap(); }
+    let fin = lock.apply(|v| *v);
+    format!("result=ok\nfinal={fin}\nexpected={}\nbad_return={bad_return}\n", threads * n)
 }
